@@ -280,7 +280,7 @@ Definition content_code (k : content tm) : Z :=
 Definition skel_of (r : record tm) : skel :=
   (r_epoch r, r_seq r, content_code (r_content r),
    match r_content r, r_seal r with
-   | KHandshake fs, None => map (fun f => (f_type f, f_seq f)) fs
+   | KHandshake fs, None => if r_epoch r =? 0 then map (fun f => (f_type f, f_seq f)) fs else []
    | _, _ => []
    end).
 Definition zz_eqb (a b : Z * Z) : bool := (fst a =? fst b) && (snd a =? snd b).
